@@ -75,7 +75,12 @@ def run(repo: Repo, chk: Check) -> None:
             # ---- S.unpack_from(buf) / S.unpack(buf) on a struct.Struct: struct.error unless the buffer is long enough
             elif isinstance(n, ast.Call) and isinstance(n.func, ast.Attribute) and n.func.attr in ("unpack_from", "unpack", "iter_unpack") and _struct_size(repo, f, n.func.value) is not None:
                 nsites += 1
-                ok, why = struct_guard(repo, f, n, t.cast(int, _struct_size(repo, f, n.func.value)))
+                need = t.cast(int, _struct_size(repo, f, n.func.value))
+                off_e = (n.args[1] if len(n.args) > 1 else next((k.value for k in n.keywords if k.arg == "offset"), None)) if n.func.attr == "unpack_from" else None
+                if off_e is not None:
+                    oko, offv = repo.try_fold(off_e, f.mod)
+                    need = need + offv if oko and isinstance(offv, int) and offv >= 0 else 1 << 62
+                ok, why = struct_guard(repo, f, n, need)
                 chk.ob("O1", Site.of(f, n), ok, why)
             # ---- to_bytes capacity
             elif isinstance(n, ast.Call) and isinstance(n.func, ast.Attribute) and n.func.attr == "to_bytes" and n.args:
@@ -95,6 +100,19 @@ def run(repo: Repo, chk: Check) -> None:
                     lo_, hi_ = (-(1 << (8 * width - 1)), (1 << (8 * width - 1)) - 1) if signed else (0, (1 << (8 * width)) - 1)
                     iv = res.iv_of(val)
                     chk.ob("O1", Site.of(f, n), iv.within(lo_, hi_), f"{unparse(val)} in {iv} fits the {width} byte field" if iv.within(lo_, hi_) else f"{unparse(val)} can be {iv} at a {width} byte struct field: struct.error escapes instead of a deliberate error")
+            # ---- datetime arithmetic on decoded numbers: OverflowError / ValueError beyond year 9999 or 999999999 days
+            elif isinstance(n, ast.Call) and (repo.dotted(n.func, f.mod) or "").split(".")[0] == "datetime" and (repo.dotted(n.func, f.mod) or "").rsplit(".", 1)[-1] in ("datetime", "date", "timedelta", "fromtimestamp", "utcfromtimestamp", "fromordinal"):
+                nsites += 1
+                badarg = None
+                for a in list(n.args) + [k.value for k in n.keywords]:
+                    okc_, _v = repo.try_fold(a, f.mod)
+                    if okc_ or isinstance(a, (ast.Attribute, ast.Name)) and (repo.dotted(a, f.mod) or "").startswith("datetime."):
+                        continue
+                    iv = res.iv_of(a)
+                    if iv.lo is None or iv.hi is None or iv.lo < -999999999 or iv.hi > 999999999:
+                        badarg = (a, iv)
+                        break
+                chk.ob("O1", Site.of(f, n), badarg is None, "date/time built from constants or bounded values" if badarg is None else f"{unparse(n)[:70]}: argument {unparse(badarg[0])[:40]} can be {badarg[1]}: OverflowError / ValueError of datetime escapes on a decoded number that is out of the calendar's range, before (or instead of) the deliberate range error")
             # ---- subscripts
             elif isinstance(n, ast.Subscript) and not isinstance(n.slice, ast.Slice) and isinstance(n.ctx, ast.Load):
                 nsites += 1
@@ -150,6 +168,17 @@ def _struct_size(repo: Repo, f: Func, recv: ast.expr) -> t.Optional[int]:
     if isinstance(recv, ast.Name):
         r = repo.resolve_name(recv.id, f.mod)
         e = r[2] if isinstance(r, tuple) and r[0] == "const" and len(r) >= 3 else None
+    elif isinstance(recv, ast.Attribute) and isinstance(recv.value, ast.Name):
+        # cls.S / self.S / Klass.S: a class level constant (also one annotated ClassVar[struct.Struct])
+        owner: t.Optional[t.Any] = f.cls if recv.value.id in ("cls", "self") else None
+        if owner is None:
+            r = repo.resolve_name(recv.value.id, f.mod)
+            owner = r[1] if isinstance(r, tuple) and r[0] == "class" else None
+        e = None
+        for c in owner.mro() if owner is not None else []:
+            if recv.attr in c.class_consts:
+                e = c.class_consts[recv.attr]
+                break
     if isinstance(e, ast.Call) and repo.dotted(e.func, f.mod) == "struct.Struct" and len(e.args) == 1:
         ok, fmt = repo.try_fold(e.args[0], f.mod)
         if ok and isinstance(fmt, (str, bytes)):
